@@ -79,6 +79,10 @@ pub use util::select_stats;
 /// Binary serialization utilities.
 pub mod binary;
 
+/// Verification hooks (see the module docs). Compiled only with `verif-hooks`.
+#[cfg(feature = "verif-hooks")]
+pub mod verif_hooks;
+
 // =============================================================================
 // Application modules
 // =============================================================================
